@@ -98,6 +98,6 @@ CHECKS['C08'] = dict(
 
 CHECKS['C19'] = dict(
     technique='model-predicted URL list and replacer metamorphic relations over generated sheets; generated import trees over a virtual file system against a reference expansion with urljoin as resolving oracle',
-    text='urls: the abstract-stylesheet model predicts getUrls (imports first, document order, url() inside functions and nested rules); replaceUrls with a recording injective replacer, its inverse, the identity, ignoreImportRules and the declaration-level dispatch. flatten: generated trees of 2-6 sheets in 7 directories on two hosts (every href form, media edges, missing targets, unwrappable rule kinds, 15 URL forms) served by a recording fetcher; the flat sheet, its serialisation (normal/minified, 5 encodings) and script.csscombine on a real temporary tree are compared with a reference expansion: each rule once, cascade order, media context, every URL resolving to its original absolute URL, kept @imports justified, available targets fetched once.',
+    text='urls: the abstract-stylesheet model predicts getUrls (imports first, document order, url() inside functions and nested rules); replaceUrls with a recording injective replacer, its inverse, the identity, ignoreImportRules and the declaration-level dispatch. flatten: generated trees of 2-6 sheets in 8 directories on two hosts (every href form, media edges, missing targets, unwrappable rule kinds, 15 URL forms) served by a recording fetcher; the flat sheet, its serialisation (normal/minified, 5 encodings) and script.csscombine on a real temporary tree are compared with a reference expansion: each rule once, cascade order, media context, every URL resolving to its original absolute URL, kept @imports justified, available targets fetched once.',
     note='Position of kept @imports is not judged; repeated requests for missing targets while flattening are the listed finding F19-1.',
 )
